@@ -4,7 +4,7 @@ import os
 from vlib import build, tlc, table
 from vlib.common import CheckBroken, run as sh
 from checks.c14 import mc as mc_lwe
-from vlib import life
+from vlib import life, objs
 
 LEVEL = "model_checking"
 
@@ -147,6 +147,23 @@ def run(ctx):
         elif bad:
             ctx.violation("API lifecycle on %s/%s (%s parameters) is not a behaviour of Life (%s): accepted %d of %d events, rejected event %s" %
                           (be, kb, kind, bad["violated"] or "no matching action: wrong plaintext / evaluation differs between key objects or runs / export bytes differ / leak / red-zone damage / crash",
+                           bad["accepted_prefix"], bad["of"], bad["event"][:300]), detail={k: bad[k] for k in ("accepted_prefix", "of", "event")}, files=bad["files"])
+    # 4. the four-phase object API (alloc / init / destroy / free, new / delete; single and array forms; seventeen types, 204 functions): ObjLife is the
+    #    machine of legal call orders, TLC generates call sequences, h_objs executes them under the ledger and Trace_ObjLife holds the readings of every
+    #    call to the footprint rules (alloc one block, linear in n; free = -alloc; destroy = -init; new = alloc + init; delete = -new; a function of (type, n))
+    r = tlc.run_tlc("MC_ObjLife", cfg="MC_ObjLife.cfg", workdir=ctx.dir, workers=4)
+    if not tlc.expect_ok(ctx, r, "MC_ObjLife"):
+        raise CheckBroken("specification ObjLife violates %s" % r.violated)
+    oplans = [("spqlios-fma", "optim", 8, 0xA5), ("fftw", "debug", 6, 0x5A)]
+    if thorough:
+        oplans = [(be, "optim", 40, 0xA5) for be in ("spqlios-fma", "spqlios-avx", "nayuki-avx", "nayuki-portable", "fftw")] + [("spqlios-fma", "debug", 20, 0x5A), ("nayuki-portable", "debug", 20, 0x5A), ("fftw", "debug", 20, 0x5A)]
+    for q, (be, kb, num, fill) in enumerate(oplans):
+        bad = objs.replay(ctx, be, kb, num, ctx.seed * 19 + q, fill=fill)
+        if bad and bad.get("crash"):
+            ctx.violation("h_objs died on %s/%s rc=%s %s" % (be, kb, bad["rc"], bad["err"]), key="h_objs crash %s %s" % (be, kb), files=bad["files"])
+        elif bad:
+            ctx.violation("object API call sequence on %s/%s breaks the footprint rules of ObjLife (%s): accepted %d of %d events, rejected event %s" %
+                          (be, kb, bad["violated"] or "a call allocates / releases something other than its counterpart, leaks, writes a red zone, frees twice, or crashed",
                            bad["accepted_prefix"], bad["of"], bad["event"][:300]), detail={k: bad[k] for k in ("accepted_prefix", "of", "event")}, files=bad["files"])
     ctx.assume("decided: heap out-of-bounds WRITES (red zones of 64 bytes around every block of the process), leaks, double frees, use of freed or uninitialised heap memory that changes a result or an export (two fill patterns, poison on free)")
     ctx.assume("NOT decided (stated in DESIGN.md section 7): out-of-bounds READS that do not change a result, accesses beyond 64 bytes past a block, stack accesses, and anything inside hand-written assembly that stays within mapped memory; the sanitizer/valgrind configurations the property text names are not part of this technique")
